@@ -18,6 +18,7 @@ from hypothesis import strategies as st
 from .. import strategies as S
 from ..common import cedge, permuted
 from ..engine import Clause, Violation, require
+from ..common import with_history  # noqa: E402
 
 ASSUMPTIONS = [
     "oracle = brute-force numpy arrays built from the abstract content of the case (node labels, "
@@ -89,6 +90,7 @@ class Abstract:
         return out
 
 
+@with_history
 def build(case):
     from hypergraphx import Hypergraph
     L = case["U"]["labels"]
@@ -522,6 +524,7 @@ def temporal_cases(draw, tier):
     return case
 
 
+@with_history
 def build_temporal(case):
     from hypergraphx import TemporalHypergraph
     L = case["U"]["labels"]
